@@ -12,7 +12,7 @@ missing / non-executable commands, mg.Fatal, plain, nil).
 Oracle: a direct Python reading of the property sentence on every observed call.
 
 All strings of a case are Python str with one char per byte (latin-1)."""
-import json, os, re, hashlib
+import json, os, re, hashlib, errno, shutil, subprocess
 from vlib import *
 
 B = lambda s: s.encode("latin-1")
@@ -43,7 +43,10 @@ def wfail_n(s):
 # every way a start can fail that the harness can construct (name -> command string)
 NOSTART = {"missing-bare-name": "c15-no-such-command-xyz", "missing-path": "/nonexistent/c15-helper", "no-x-bit": "@NOEXEC@",
            "directory": "@BINDIR@", "exec-format-error": "@BADFMT@", "missing-interpreter": "@BADINTERP@",
-           "empty-command": "", "through-regular-file": "@BIN@/x", "missing-relative": "./c15-nothing-here"}
+           "empty-command": "", "through-regular-file": "@BIN@/x", "missing-relative": "./c15-nothing-here",
+           "text-file-busy": "@TXTBSY@"}       # a copy of the helper that the check holds open for writing during the whole run (ETXTBSY)
+BIGARG = "@BIGARG@"            # an argument longer than the kernel's MAX_ARG_STRLEN (131072): execve fails with E2BIG
+BIGLEN = 140000
 MAX_REPORT = 6          # replay files written per run, at most 2 per kind of clause (the evidence counts all failing cases)
 
 
@@ -156,11 +159,21 @@ class World:
         with open(self.badinterp, "w") as f:
             f.write("#!/nonexistent/c15-interpreter\nexit 0\n")
         os.chmod(self.badinterp, 0o755)
+        # execve fails with ETXTBSY while some process has the file open for writing: this process does, until it exits
+        self.txtbsy = os.path.join(ctx.tmp, "txtbsy")
+        shutil.copy(self.bin, self.txtbsy)
+        os.chmod(self.txtbsy, 0o755)
+        self.txtbsy_fd = os.open(self.txtbsy, os.O_WRONLY)
+        try:
+            subprocess.run([self.txtbsy], env={}, stdin=subprocess.DEVNULL, stdout=subprocess.DEVNULL, stderr=subprocess.DEVNULL, timeout=20)
+            self.txtbsy_effective = False        # this kernel starts it anyway: the shape is left out (recorded in the evidence)
+        except OSError as ex:
+            self.txtbsy_effective = (ex.errno == errno.ETXTBSY)
         self.unitrun = go_build_harness(ctx, "unitrun")
         self.base_env = {"PATH": "/usr/bin:/bin"}
 
     def subst(self, s):
-        return s.replace("@BINDIR@", self.bindir).replace("@BIN@", self.bin).replace("@NOEXEC@", self.noexec).replace("@BADFMT@", self.badfmt).replace("@BADINTERP@", self.badinterp)
+        return s.replace("@BINDIR@", self.bindir).replace("@BIN@", self.bin).replace("@NOEXEC@", self.noexec).replace("@BADFMT@", self.badfmt).replace("@BADINTERP@", self.badinterp).replace("@TXTBSY@", self.txtbsy)
 
 
 def make_request(w, c, workdir, idx):
@@ -202,7 +215,7 @@ def make_request(w, c, workdir, idx):
     if c["verbose"] is not None:
         setenv["MAGEFILE_VERBOSE"] = c["verbose"]
     uses = c["fn"] in WITH_ENV
-    raw = {"fn": c["fn"], "cmd": HX(w.subst(c["cmd"])), "args": [HX(a) for a in c["args"]],
+    raw = {"fn": c["fn"], "cmd": HX(w.subst(c["cmd"])), "args": [HX("x" * BIGLEN if a == BIGARG else a) for a in c["args"]],
            "setenv": {HX(k): HX(v) for k, v in setenv.items()}, "unset": [], "stdin": HX(c["stdin"]),
            "so": c["so"], "se": c["se"], "dump": dump, "tmp": workdir, "wait": wait}
     if uses and envm is not None:
@@ -317,9 +330,11 @@ def oracle(w, c, a, setenv, envm):
     look = lambda name: m[name] if name in m else parent.get(name, "")
     ecmd = py_expand(w.subst(c["cmd"]), look)
     if ecmd is not None:
-        should = (ecmd == w.bin)
+        toolong = BIGARG in c["args"]
+        should = (ecmd == w.bin) and not toolong
         if should != started:
-            bad.append("command %r expands to %r which %s be started, but it was%s started" % (c["cmd"], ecmd, "can" if should else "cannot", "" if started else " not"))
+            bad.append("command %r expands to %r which %s be started%s, but it was%s started" % (c["cmd"], ecmd, "can" if should else "cannot",
+                       " (an argument of %d bytes exceeds the kernel's limit)" % BIGLEN if toolong else "", "" if started else " not"))
     if started:
         argv = [unhex(x) for x in d["argv"]]
         if ecmd is not None and argv[:1] != [ecmd]:
@@ -445,7 +460,7 @@ def case_term(w, c, a, envm):
         coq_bool(a["sh_cmdran"]), cs(unhex(a["text"])), started, coq_bool(stdin_ok),
         cs(unhex(a["os_stdout"])), cs(unhex(a["os_stderr"])), cs(unhex(a["buf_out"])), cs(unhex(a["buf_err"])))
     return "{| c_penv := %s; c_envm := %s; c_fn := %s; c_cmd := %s; c_args := %s; c_startable := %s; c_child := %s; c_obs := %s |}" % (
-        pairs(penv), pairs(envm or []), ent, cs(w.subst(c["cmd"])), coq_list([cs(x) for x in c["args"]]), coq_list([cs(w.bin)]), child, obs)
+        pairs(penv), pairs(envm or []), ent, cs(w.subst(c["cmd"])), coq_list(["(big %d)" % BIGLEN if x == BIGARG else cs(x) for x in c["args"]]), coq_list([cs(w.bin)]), child, obs)
 
 
 def raw_term(c, a):
@@ -492,20 +507,26 @@ def run(ctx):
             c = gen_case(rng, fn=fn, good_cmd=True)
             c["out"], c["sig"] = p, 0
             cases.append(c)
-    # every not-startable shape, through Exec (the only entry point that returns `ran`) and two other entry points;
-    # literally, and through a variable the env map sets
-    for si, (shape, cmdstr) in enumerate(sorted(NOSTART.items())):
-        for j, fn in enumerate(["Exec", "Exec", FNS[si % 6], FNS[(si + 3) % 6]]):
+    # the "could not be started" family, every shape through EVERY entry point, literally and (Exec) through a variable the
+    # env map sets over a startable inherited value; expectation: error non-nil, ran=false, statuses 1, no output
+    shapes_used = {k: v for k, v in NOSTART.items() if k != "text-file-busy" or w.txtbsy_effective}
+    shapes_used["argument-too-long"] = "@BIN@"
+    for si, (shape, cmdstr) in enumerate(sorted(shapes_used.items())):
+        for j, fn in enumerate(["Exec", "Exec"] + FNS[:6]):
             c = gen_case(rng, fn=fn, good_cmd=True)
             c["sig"], c["via_map"] = 0, False
+            if fn == "Exec":
+                c["so"], c["se"] = [("buf", "buf"), ("os", "nil")][j]
             c["inherit"] = [kv for kv in c["inherit"] if kv[0] not in ("C15_BIN", "C15_DIR", "C15_NAME")]
             if j == 1:
                 c["cmd"] = "${C15_BIN}"
                 c["env"] = [kv for kv in (c["env"] or []) if kv[0] != "C15_BIN"] + [["C15_BIN", cmdstr]]
-                c["inherit"].append(["C15_BIN", "@BIN@"])       # the map overrides a startable inherited value
+                c["inherit"].append(["C15_BIN", "@BIN@" if shape != "argument-too-long" else "/nonexistent/c15"])   # the map overrides the inherited value
             else:
                 c["cmd"] = cmdstr
                 c["env"] = [kv for kv in (c["env"] or []) if kv[0] not in ("C15_BIN", "C15_DIR")] if c["env"] is not None else None
+            if shape == "argument-too-long":
+                c["args"] = c["args"][:2] + [BIGARG]
             c["shape"] = shape
             cases.append(c)
     # a child that exits k while a detached descendant keeps the inherited stdout (resp. stderr) open for 1.2 s and then
@@ -605,6 +626,11 @@ def run(ctx):
 
     header = "From Mage Require Import Base.Strs Base.Expand Model.Sh Run.eval_C15.\n"
     per = max(20, (len(items) + NCPU - 1) // NCPU)
+    # deal the cases out to the shards like cards: the expensive ones (200 kB arguments) come in blocks
+    nsh = max(1, (len(items) + per - 1) // per)
+    perm = [i for r in range(nsh) for i in range(r, len(items), nsh)]
+    items = [items[i] for i in perm]
+    idx_call = [idx_call[i] for i in perm]
     mism = ctx.coq_eval_shards("cases_C15", header, items, per_shard=per)
     ctx.log("model evaluated on calls")
     header_raw = header + "Definition mismatches := mismatches_raw.\n"
@@ -637,6 +663,7 @@ def run(ctx):
     cov["signals_usable_here"] = signals
     cov["calls_exec_with_failing_writer"] = sum(1 for c in cases if not c.get("raw") and c["fn"] == "Exec" and (wfail_n(c["so"]) is not None or wfail_n(c["se"]) is not None))
     cov["not_startable_shapes_observed_not_started"] = shapes
+    cov["text_file_busy_effective_here"] = w.txtbsy_effective
     cov["verbose"] = verb
     cov["exit_codes_observed"] = len(codes_seen)
     cov["exhaustive"] = "exit codes 0..255 (all observed: %s)" % (len(codes_seen) == 256)
